@@ -87,6 +87,21 @@ for tgt, pats in ((first6, ['/tmp/mx/r6-*.txt']), (det6, ['/tmp/mx/r6-*.txt', '/
                     if '=' in kv:
                         c, rc = kv.split('=')
                         d[c] = max(int(rc), d.get(c, 0)) if tgt is det6 else int(rc)
+# round 7 (one free-choice change per property, round-6 families excluded): r7-*.txt first run, r7y-*.txt re-runs
+det7, first7 = {}, {}
+for tgt, pats in ((first7, ['/tmp/mx/r7-*.txt']), (det7, ['/tmp/mx/r7-*.txt', '/tmp/mx/r7y-*.txt'])):
+    for pat in pats:
+        for f in sorted(glob.glob(pat)):
+            for line in open(f):
+                parts = line.split()
+                if not parts or '/' not in parts[0]:
+                    continue
+                key = parts[0].replace('/m', '-y')
+                d = tgt.setdefault(key, {})
+                for kv in parts[1:]:
+                    if '=' in kv:
+                        c, rc = kv.split('=')
+                        d[c] = max(int(rc), d.get(c, 0)) if tgt is det7 else int(rc)
 # regression of every kept change against the final checks (tools/regress_seeded.sh): id -> {check: rc}
 reg = {}
 for f in sorted(glob.glob('/tmp/mx/regress-*.txt')):
@@ -95,7 +110,7 @@ for f in sorted(glob.glob('/tmp/mx/regress-*.txt')):
         if len(parts) >= 2 and '=' in parts[1]:
             reg[parts[0]] = {kv.split('=')[0]: int(kv.split('=')[1]) for kv in parts[1:] if '=' in kv}
 n = 0
-for d in sorted(glob.glob('/tmp/seed/out/C*/m*/')) + sorted(glob.glob('/tmp/seed/out2/C*/m*/')) + sorted(glob.glob('/tmp/seed/out3/C*/m*/')) + sorted(glob.glob('/tmp/seed/out4/C*/m*/')) + sorted(glob.glob('/tmp/seed/out5/C*/m*/')) + sorted(glob.glob('/tmp/seed/out6/C*/m*/')):
+for d in sorted(glob.glob('/tmp/seed/out/C*/m*/')) + sorted(glob.glob('/tmp/seed/out2/C*/m*/')) + sorted(glob.glob('/tmp/seed/out3/C*/m*/')) + sorted(glob.glob('/tmp/seed/out4/C*/m*/')) + sorted(glob.glob('/tmp/seed/out5/C*/m*/')) + sorted(glob.glob('/tmp/seed/out6/C*/m*/')) + sorted(glob.glob('/tmp/seed/out7/C*/m*/')):
     pid, k = d.rstrip('/').split('/')[-2:]
     round2 = '/out2/' in d
     round3 = '/out3/' in d
@@ -112,6 +127,9 @@ for d in sorted(glob.glob('/tmp/seed/out/C*/m*/')) + sorted(glob.glob('/tmp/seed
     round6 = '/out6/' in d
     if round6:
         k = k.replace('m', 'x')
+    round7 = '/out7/' in d
+    if round7:
+        k = k.replace('m', 'y')
     conf = os.path.join(d, 'confirm.json')
     if not os.path.exists(conf):
         continue
@@ -128,14 +146,14 @@ for d in sorted(glob.glob('/tmp/seed/out/C*/m*/')) + sorted(glob.glob('/tmp/seed
         am = json.load(open(os.path.join(d, 'meta.json')))
     except Exception:
         am = {}
-    checks = det2.get(sid, {}) if round2 else (det3.get(sid, {}) if round3 else (det4.get(sid, {}) if round4 else (det5.get(sid, {}) if round5 else (det6.get(sid, {}) if round6 else det.get(sid, {})))))
+    checks = det2.get(sid, {}) if round2 else (det3.get(sid, {}) if round3 else (det4.get(sid, {}) if round4 else (det5.get(sid, {}) if round5 else (det6.get(sid, {}) if round6 else (det7.get(sid, {}) if round7 else det.get(sid, {}))))))
     meta = {
         "id": sid,
         "property": pid,
         "summary": am.get("summary", ""),
         "needs_to_manifest": am.get("needs_to_manifest", ""),
         "clause_violated": am.get("clause_violated", ""),
-        "round": 2 if round2 else (3 if round3 else (4 if round4 else (5 if round5 else (6 if round6 else 1)))),
+        "round": 2 if round2 else (3 if round3 else (4 if round4 else (5 if round5 else (6 if round6 else (7 if round7 else 1))))),
         "kind": am.get("kind"),
         "minimal_trigger_size": am.get("minimal_trigger_size"),
         "origin": "written by a fresh sub-agent that saw only the property text and a scratch worktree of /repo (nothing from /verif)" + ("; round 2: asked for changes that cannot manifest on inputs with <=3 nodes, <=2 hyperedges, interfaces <=2, <=3 steps" if round2 else ""),
@@ -158,6 +176,10 @@ for d in sorted(glob.glob('/tmp/seed/out/C*/m*/')) + sorted(glob.glob('/tmp/seed
         meta["origin"] += "; round 6: free choice - asked for the violation hardest to notice for a thorough, property-aware black-box suite (exhaustive small inputs, structured larger ones, every entry point, several label types, a second array backend, short histories)"
         meta["why_a_thorough_suite_would_miss_it"] = am.get("why_a_thorough_suite_would_miss_it", "")
         meta["detected_by_own_check_when_the_round_came_in"] = first6.get(sid, {}).get(pid) == 1
+    if round7:
+        meta["origin"] += "; round 7: free choice again, one change per property, with the families the checks already catch after round 6 named and excluded"
+        meta["why_a_thorough_suite_would_miss_it"] = am.get("why_a_thorough_suite_would_miss_it", "")
+        meta["detected_by_own_check_when_the_round_came_in"] = first7.get(sid, {}).get(pid) == 1
     if sid in reg:
         meta["regression_run_with_the_final_checks"] = {k2: ("VIOLATION" if v == 1 else ("clean" if v == 0 else f"exit {v}")) for k2, v in sorted(reg[sid].items())}
         for k2, v in reg[sid].items():
